@@ -111,7 +111,7 @@ def main(argv=None):
         notes.extend("%s: %s" % (r["job"], n) for n in r["notes"])
         jo = jn = 0
         for o in r["obls"]:
-            if o["prop"] != prop:
+            if prop not in o["prop"].split(","):
                 continue
             n_obl += o["n"]
             jn += o["n"]
